@@ -7,6 +7,7 @@ _LISTED = None
 
 PRED = {
     'cbz-scale': lambda res, case: res.row == 'CBZ_T1',
+    'push-t2-unaligned': lambda res, case: res.row == 'PUSH_T2',
 }
 
 
